@@ -616,6 +616,32 @@ func checkT5(c *Ctx, jr *joinRoles) {
 			}
 		}
 	}
+	// ... or a normalising method with a pointer receiver was applied to that copy before the call
+	if ld, isLd := calcCall.Call.Args[1].(*ssa.UnOp); isLd && ld.Op == token.MUL && !normalised && !inlineDefault {
+		if fa, isFA := ld.X.(*ssa.FieldAddr); isFA && fieldName(fa.X.Type(), fa.Field) == "TimeoutInaccuracy" {
+			for _, b := range calcCall.Parent().Blocks {
+				for _, in := range b.Instrs {
+					nc, isCall := in.(*ssa.Call)
+					if !isCall || len(nc.Call.Args) != 1 || nc.Call.Args[0] != fa.X || !instrDominates(nc, calcCall) {
+						continue
+					}
+					if nf := p.Callee(nc); nf != nil && p.IsProduct(nf) && nf.Signature.Recv() != nil {
+						if stores, okd := p.defaultsInaccuracy(nf); okd {
+							onRecv := true
+							for _, st := range stores {
+								if st.Addr.(*ssa.FieldAddr).X != ssa.Value(nf.Params[0]) {
+									onRecv = false
+								}
+							}
+							if onRecv {
+								inlineDefault = true
+							}
+						}
+					}
+				}
+			}
+		}
+	}
 	okArgs := strings.HasSuffix(a0, ".Timeout") && ((strings.HasSuffix(a1, ".TimeoutInaccuracy") && normalised) || inlineDefault)
 	c.R.Check(okArgs, "T5", jr.key+"#ctor-args", p.InstrPos(calcCall), "computed from (Timeout, TimeoutInaccuracy) of the normalised options", "interval computed from ("+a0+", "+a1+"): expected Opts.Timeout and the normalised Opts.TimeoutInaccuracy (default substituted for 0)")
 	// (c) formula: the non-zero results of the calc function, looking through wrappers that pass
@@ -745,6 +771,26 @@ func checkT5(c *Ctx, jr *joinRoles) {
 						}
 						return false
 					}
+					// divider <= timeout says the same as timeout/divider != 0 (divider = 100/inaccuracy > 0)
+					{
+						isDividerTerm := func(x *Sym) bool {
+							return x.Op == "bin" && x.Name == "/" && x.Args[1].Op == "param" && x.Args[0].Op == "const"
+						}
+						isTimeoutPar := func(x *Sym) bool {
+							if x.Op != "param" {
+								return false
+							}
+							par, ok := x.V.(*ssa.Parameter)
+							if !ok {
+								return false
+							}
+							bt, isB := par.Type().Underlying().(*types.Basic)
+							return isB && bt.Info()&types.IsUnsigned == 0
+						}
+						if cm.LC == 0 && cm.RC == 0 && isDividerTerm(l) && isTimeoutPar(rr) && cm.Op == token.LEQ {
+							haveInt = true
+						}
+					}
 					// inaccuracy <= 100 says the same as 100/inaccuracy != 0
 					if l.Op == "param" && rr.Op == "const" {
 						if k, isK := symConstInt(rr); isK {
@@ -855,7 +901,9 @@ func (p *Prog) defaultsInaccuracy(fn *ssa.Function) ([]*ssa.Store, bool) {
 				continue
 			}
 			fa := st.Addr.(*ssa.FieldAddr)
-			if _, isAl := fa.X.(*ssa.Alloc); !isAl {
+			switch fa.X.(type) {
+			case *ssa.Alloc, *ssa.Parameter: // the local copy, or the options behind a pointer receiver
+			default:
 				okAll = false
 				continue
 			}
